@@ -177,6 +177,9 @@ theorem registry_accesses_guarded :
 theorem thread_data_is_thread_local : Generated.threadDataThreadLocal = true := by decide
 theorem status_is_atomic : Generated.statusAtomic = true := by decide
 theorem sandbox_list_is_static : Generated.sandboxListStatic = true := by decide
+/-- `find` is ONE atomic step: every entry of the live list is asked "is this address yours?" while the guard on the list
+is held, so an instance cannot be torn down by its owner in the middle of another thread's walk -/
+theorem find_walk_atomic : Generated.findQueriesInsideGuard = true := by decide
 /-- `regDel` is ONE atomic step: the lookup of the instance in the live list and its removal happen
 inside the same UNIQUE guard (no window in which another thread's create/destroy can shift or
 reallocate the list between the two) -/
